@@ -25,6 +25,9 @@ CHECKS.update({
         text="NoUncommitted is model-checked in Core.tla (spilled / rolled-back frames physically in the WAL); on the real code every TXID listed at any level is restored and the TLA+ judge requires each to equal one recorded committed state, in order, with level 0 gapless from 1; chunked syncs and open transactions across litestream steps included."),
     "C04": dict(technique=CORE_TECH, design="7/C04", note=CORE_NOTE,
         text="Core.tla explores stop/start of the same object, new process, crash and arbitrary application activity while litestream is down; replays add lost/reset state directories and replaced database files; the TLA+ judge tracks from observed WAL states whether uncopied committed frames were destroyed and demands a full snapshot above the replica's TXIDs, position agreement at every acknowledgement, and C01."),
+    "C13": dict(technique="TLA+ spec Policy.tla (checkpointIfNeeded over frame counts): TLC exhaustive over all small configurations; its behaviours replayed on the real litestream for every configuration; TLC judge CoreObs.tla (C13_*) on the observed WAL and level-0 files",
+        design="7/C13", note=CORE_NOTE,
+        text="Policy.tla checks AfterSyncBound and IdleSilence for every (MinCheckpointPageN, TruncatePageN, interval) in 1..9 pages x {off, elapsed, not yet}; every configuration is then run on the real code with model-generated write/sync histories followed by idle syncs, and the TLA+ judge evaluates the WAL bound after every successful sync and the number of files created by idle syncs."),
     "C14": dict(technique=CORE_TECH, design="7/C14", note=CORE_NOTE,
         text="Every history is executed twice (with and without litestream); the TLA+ judge requires the application-visible content (schema + rows minus _litestream_*) unchanged by every litestream step and equal to the control run after every application step, _litestream_lock empty, integrity_check ok, WAL mode."),
 })
